@@ -451,6 +451,23 @@ def oracle(case):
 				except Exception:
 					return None
 				return {'what': 'start line with the wrong number of fields accepted', 'line': line.decode('latin-1'), 'finding': None}
+			if k == 'reqline':
+				# a request line made of a method Method.parse accepts, an origin-form target and a version parses and composes back
+				import re
+				m, t, v = fields
+				try:
+					Method().parse(m)
+					mok = True
+				except Exception:
+					mok = False
+				if mok and m != b'CONNECT' and re.match(rb'^/[A-Za-z0-9/._~-]*$', t) and b'//' not in t and b'/.' not in t and re.match(rb'^HTTP/[0-9]\.[0-9]$', v) and line == b' '.join(fields):
+					r = Request()
+					try:
+						r.parse(line)
+					except Exception as e:
+						return {'what': 'well-formed request line refused with %s' % exc_name(e), 'line': line.decode('latin-1'), 'finding': None}
+					if bytes(r) != line + b'\r\n':
+						return {'what': 'request line composes back as %r' % bytes(r), 'line': line.decode('latin-1'), 'finding': None}
 			return None
 	except Exception as e:
 		return {'what': 'oracle raised %s: %s' % (exc_name(e), e), 'case': repr(case)[:200], 'finding': None}
